@@ -83,16 +83,18 @@ LeafCases == {Tag([kind |-> "leaf", t |-> tx[3], x |-> tx[4], fmt |-> fmt]) : fm
 E(p, t, d) == [p |-> p, t |-> t, d |-> d]
 DictAB(a, b) == DictV(<< <<Str(<<"a">>), IntV(a)>>, <<Str(<<"b">>), IntV(b)>> >>)
 ShapeA == [top |-> << E(<<<<"s">>>>, TStr, Str(<<"x">>)), E(<<<<"n">>>>, TOpt(TInt), IntV(<<"3">>)), E(<<<<"g">>, <<"a">>>>, TInt, IntV(<<"1">>)), E(<<<<"g">>, <<"b">>>>, TOpt(TStr), NullV),
-                      E(<<<<"d">>>>, TDict(TStr, TInt), DictAB(<<"1">>, <<"2">>)), E(<<<<"l">>>>, TList(TInt), ListV(<<IntV(<<"1">>), IntV(<<"2">>)>>)) >>,
+                      E(<<<<"d">>>>, TDict(TStr, TInt), DictAB(<<"1">>, <<"2">>)), E(<<<<"l">>>>, TList(TInt), ListV(<<IntV(<<"1">>), IntV(<<"2">>)>>)),
+                      E(<<<<"u">>>>, TUnion(<<TInt, TFloat>>), Flt(<<"1",".","0">>)) >>,
            subs |-> << >>, required |-> FALSE]
 SubsB  == << <<<<"a">>, << E(<<<<"x">>>>, TInt, IntV(<<"1">>)), E(<<<<"s">>>>, TStr, Str(<<"q">>)) >> >>, <<<<"b">>, << >> >>, <<<<"c">>, << E(<<<<"y">>>>, TOpt(TStr), NullV) >> >> >>
 ShapeB == [top |-> << E(<<<<"t","o","p">>>>, TInt, IntV(<<"0">>)) >>, subs |-> SubsB, required |-> TRUE]
 ShapeC == [top |-> << E(<<<<"t","o","p">>>>, TInt, IntV(<<"0">>)) >>, subs |-> SubsB, required |-> FALSE]
 Shapes == <<ShapeA, ShapeB, ShapeC>>
 TS(s) == {Tag(s[i]) : i \in 1..Len(s)}
-CfgsA == {Tag(CfgV(<<s[2], n[2], ga[2], gb[2], d[2], l[2]>>, 0, << >>)) :
+CfgsA == {Tag(CfgV(<<s[2], n[2], ga[2], gb[2], d[2], l[2], u[2]>>, 0, << >>)) :
+            u \in TS(<<Flt(<<"1",".","0">>), IntV(<<"1">>)>> \o (IF Depth2 THEN <<IntV(<<"2">>)>> ELSE << >>)),
             s \in TS(<<Str(<<"x">>), Str(<<"1","e","3">>)>> \o (IF Depth2 THEN <<Str(<<"a","b","c">>)>> ELSE << >>)), n \in TS(<<IntV(<<"3">>), NullV>> \o (IF Depth2 THEN <<IntV(<<"5">>)>> ELSE << >>)),
-            ga \in TS(<<IntV(<<"1">>), IntV(<<"2">>)>>), gb \in TS(<<NullV, Str(<<"u">>)>>),
+            ga \in TS(<<IntV(<<"1">>)>> \o (IF Depth2 THEN <<IntV(<<"2">>)>> ELSE << >>)), gb \in TS(<<NullV, Str(<<"u">>)>>),
             d \in TS(<<DictAB(<<"1">>, <<"2">>), DictAB(<<"1">>, <<"3">>), DictV(<< <<Str(<<"c">>), IntV(<<"5">>)>> >>), DictV(<< >>)>>),
             l \in TS(<<ListV(<<IntV(<<"1">>), IntV(<<"2">>)>>)>> \o (IF Depth2 THEN <<ListV(<<IntV(<<"3">>)>>)>> ELSE << >>))}
 CfgsBC(withNone) ==
@@ -139,7 +141,7 @@ Want == Expected(Shapes[c.sh], c.cfg, Flags(FALSE, c.sn, c.sd))
 CfgOK(r) == ~Bad(r) /\ SameCfg(r, Want)
 InvCfgRoundTripModuloKnown == IsCfg => (CfgOK(f.rt) \/ IsUnsure(f.rt) \/ f.hz # << >>)
 InvCfgIdeal == IsCfg => (CfgOK(f.irt) \/ IsUnsure(f.irt)
-                         \/ \E i \in 1..Len(f.hz) : f.hz[i] \in {"subcommand-selector-not-dumped", "skip-default-required-subcommand-raises", "skip-default-inside-dict-value"})
+                         \/ \E i \in 1..Len(f.hz) : f.hz[i] \in {"subcommand-selector-not-dumped", "skip-default-required-subcommand-raises", "skip-default-inside-dict-value", "skip-default-equal-but-other-type"})
 \* ---- the plain law, for the record (print-and-continue): every case that breaks it, with the families that explain it
 PlainLaw == IF ~Done THEN TRUE ELSE IF c.kind = "leaf" THEN (Bad(f.v) \/ Same(f.rt, f.v) \/ IsUnsure(f.rt)) ELSE (CfgOK(f.rt) \/ IsUnsure(f.rt))
 InvFind  == PlainLaw \/ PrintT(ToJson([cex |-> c, hz |-> f.hz]))
